@@ -53,6 +53,9 @@ Definition cc_oeqb (a b : cc_out) : bool := res_eqb cobs_eqb (fst a) (fst b) && 
 (* C11_commit on the implementation's answer: an observation is produced (commit never fails) and every oracle accepts it *)
 Definition cc_ok (x : cc_in) (o : cc_out) : bool :=
   let '(g, fl, st, phase, retry, i) := x in
+  (* outside [values_ok] (a stored execution fee <= 0 or absent, a data-availability fee < 0 or absent, a native price of 0:
+     values validation rejects from anybody, whatever the role) the case is judged for model/implementation agreement only *)
+  negb (values_ok st) ||
   match fst o with
   | Ok _ => Nat.eqb (length (snd o)) (length (c_oracles g)) && forallb (fun v => v) (snd o)
   | _ => false
@@ -73,6 +76,7 @@ Definition ce_oeqb (a b : ce_out) : bool := res_eqb eobs_eqb (fst a) (fst b) && 
    [pending_known]; the model still has to predict the answer) *)
 Definition ce_ok (x : ce_in) (o : ce_out) : bool :=
   let '(g, fl, st, phase, i) := x in
+  negb (values_ok st) ||
   match fst o with
   | Ok _ => negb (pending_known g st) ||
             (Nat.eqb (length (snd o)) (length (c_oracles g)) && forallb (fun v => v) (snd o))
